@@ -182,6 +182,24 @@ impl<T> Sender<T> {
         send_post(old(self).shared, final(self).shared, item, r),   // [C16]
 //@end
 
+// the Sink impl of Sender: always ready, `start_send` IS `send`, flush/close are no-ops (they do NOT close the channel)
+//@extract file=local-channel/src/mpsc.rs item="impl<T> Sink<T> for Sender<T> / fn poll_ready" ret=r props=C16 name=mpsc::sink_poll_ready sig_replace="_: &mut Context<'_>=>_unused: &mut Context<'_>"
+//@spec
+    ensures r matches Poll::Ready(Ok(_)), final(self).shared == old(self).shared,   // [C16] the channel is unbounded: always ready
+//@end
+//@extract file=local-channel/src/mpsc.rs item="impl<T> Sink<T> for Sender<T> / fn start_send" ret=r props=C16 name=mpsc::sink_start_send
+//@spec
+    ensures send_post(old(self).shared, final(self).shared, item, r),   // [C16] exactly `send`
+//@end
+//@extract file=local-channel/src/mpsc.rs item="impl<T> Sink<T> for Sender<T> / fn poll_flush" ret=r props=C16 name=mpsc::sink_poll_flush sig_replace="_: &mut Context<'_>=>_unused: &mut Context<'_>"
+//@spec
+    ensures r matches Poll::Ready(Ok(_)), final(self).shared == old(self).shared,
+//@end
+//@extract file=local-channel/src/mpsc.rs item="impl<T> Sink<T> for Sender<T> / fn poll_close" ret=r props=C16 name=mpsc::sink_poll_close sig_replace="_: &mut Context<'_>=>_unused: &mut Context<'_>"
+//@spec
+    ensures r matches Poll::Ready(Ok(_)), final(self).shared == old(self).shared,   // [C16] closing the sink does not close the channel
+//@end
+
 //@extract file=local-channel/src/mpsc.rs item="impl<T> Sender<T> / fn close" props=C16
 //@spec
     ensures
@@ -341,6 +359,14 @@ pub proof fn lemma_new_handle_step<T>(o: Cell<T>, n: Cell<T>, hd: Cell<T>, h: Hi
 {
 }
 //@end
+
+
+impl<T> SendError<T> {
+//@extract file=local-channel/src/mpsc.rs item="impl<T> SendError<T> / fn into_inner" ret=r props=C16 name=mpsc::send_error_into_inner
+//@spec
+    ensures r == self.0,   // [C16] a rejected message is handed back intact
+//@end
+}
 
 } // verus!
 fn main() {}
